@@ -1184,7 +1184,13 @@ func c16R(lo, hi rune) c16Item { return c16Item{K: "r", Lo: lo, Hi: hi} }
 
 func init() {
 	core.Register("C16", func(c *core.Ctx) {
+		// C16_ONLY=Kq: run only the query-function leg (development aid)
+		if os.Getenv("C16_ONLY") == "Kq" {
+			c16QueryLeg(c, 800, 8000)
+			return
+		}
 		defer c16AltLeg(c)
+		defer c16QueryLeg(c, 800, 8000)
 		corpus := []c16Case{
 			// the "negated normal form taken too early" inputs (fixed by 493eae7)
 			{Class: c16Class{Items: []c16Item{{K: "sh", Name: "d", Neg: true}, c16R('5', '5')}}, Opts: c16E, Salt: 1},
